@@ -193,7 +193,11 @@ func randMsg(r *rand.Rand) string {
 	case 7:
 		return "|" + pick(r, []string{"m", "中", "=", "1"})
 	case 8:
-		return "|a=b"
+		if chance(r, 0.5) {
+			return "|a=b"
+		}
+		// messages that begin and end with a single quote (the README's way of protecting a comma), paired or not
+		return "|" + pick(r, []string{"'a,b'", "'yes' or 'no'", "'x'", "''", "'admin' 或 'root'", "'m", "m'", "'a' 'b'"})
 	}
 	return "|" + randFrom(r, []string{"m", "(", ")", "~", "/", "=", "|", "中"}, 1, 4)
 }
